@@ -142,7 +142,7 @@ def gen_tasks(r, n):
     vs = ['3.6', '3.8', '3.10', '3.12']
     tasks = []
     for i in range(n):
-        kind, text = gens.text_case(r.random(), 'c18-text', i, ['oneliner', 'valid', 'mutate', 'lines'])
+        kind, text = gens.text_case(r.random(), 'c18-text', i, ['oneliner', 'valid', 'mutate', 'lines', 'semantic'])
         tasks.append((r.choice(['parse', 'parse', 'errors', 'tokenize']), r.choice(vs), text[:160]))
     return tasks
 
